@@ -273,6 +273,13 @@ inline Result exec_c04(const Plan& plan)
     sim::stats().count("c04.calls", rs.csteps.size());
     fp.add((u64)o.kind);
     fp.add((u64)rs.csteps.size());
+    for(auto& st : rs.csteps)
+    {
+        fp.add((u64)st.cursor_off);
+        fp.add(st.bits);
+        fp.add((u64)st.addr_off);
+        fp.add((u64)st.wrapper);
+    }
     if(std::memcmp(p, f.bytes.data(), (std::size_t)N) != 0)
     {
         fail("buffer-modified", "a cursor traversal (writes re-write the value read by random access) changed the buffer");
